@@ -24,14 +24,14 @@ LinkSlotW(rel, tg) == IF tg = <<"-">> THEN <<>> ELSE (W(rel) :> LinkNode(tg))
 \* link universe: target shapes for a link at the package root (l) and one inside the directory s (k)
 TLp == { <<"f">>, <<"s">>, <<"s","g">>, <<"nowhere">>, <<"..","sib","g">>, <<"..","terraform-sources.json">>, <<"..","..","v">>,
          <<"k">>, <<"..","w","f">>, <<"","A","T","w","f">>, <<"","A","v">>, <<"s","..","f">>, <<"p">> }
-TKp == { <<"..","f">>, <<"g">>, <<"..","..","sib">>, <<"..","l">> }
+TKp == { <<"..","f">>, <<"g">>, <<"..","..","sib">>, <<"..","..","sib","g">>, <<"..","l">> }
 CoreP == (W(<<"f">>) :> FileNode(644, 2, 1)) @@ (W(<<"s">>) :> D7) @@ (W(<<"s","g">>) :> FileNode(600, 2, 2))
 LinkTrees ==
   { LinkSlotW(<<"l">>, l) @@ LinkSlotW(<<"s","k">>, k) @@ (IF fifo = "root" THEN (W(<<"p">>) :> FifoNode(644, 2)) ELSE IF fifo = "ins" THEN (W(<<"s","p">>) :> FifoNode(644, 2)) ELSE <<>>)
     @@ (IF rf THEN (W(<<".terraformignore">>) :> FileNode(644, 2, RuleFileC)) ELSE <<>>) @@ CoreP @@ ArenaP
     : l \in TLp \cup {<<"-">>}, k \in TKp \cup {<<"-">>}, fifo \in {"none", "root", "ins"}, rf \in BOOLEAN }
 \* rule lists used with the link universe: ignore the directory s (with the fifo / link inside), or the link itself
-LinkRules == { <<>>, << SR(FALSE, FALSE, TRUE, <<<<"s">>>>) >>, << SR(FALSE, TRUE, FALSE, <<<<"l">>>>) >>, << SR(FALSE, FALSE, FALSE, <<<<"p">>>>) >> }
+LinkRules == { <<>>, << SR(FALSE, FALSE, TRUE, <<<<"s">>>>) >>, << SR(FALSE, FALSE, TRUE, <<<<"l">>>>) >>, << SR(FALSE, TRUE, FALSE, <<<<"l">>>>) >>, << SR(FALSE, FALSE, FALSE, <<<<"p">>>>) >> }
 
 \* saturated tree for the rule language on package paths
 SatP == [ p \in ( { <<d>> : d \in {"a", "ab"} } \cup { <<d1, d2>> : d1 \in {"a", "ab"}, d2 \in {"a", "ab"} } ) |-> D7 ]
